@@ -93,11 +93,11 @@ Theorem C03_login_chain_is_code : forall (s : state) (h : N) (x : session) (t : 
           (fun _ => 0) h utype 1 (blen p))).
 Proof. exact login_chain_is_code. Qed.
 Print Assumptions C03_login_chain_is_code.
-Theorem C03_opensession_model_is_code : forall (s : state) (k flags : N),
+Theorem C03_opensession_model_is_code : forall (s : state) (k flags : N) (lr : bool),
   st_init s = true -> amem k (st_tokens s) = true ->
   match snd (step s (OOpen (TTok k) flags)) with
-  | RRv rv => rv = SessionManager_openSession.app (opensession_env s k flags)
-  | RHandle _ => SessionManager_openSession.app (opensession_env s k flags) = CKR_OK
+  | RRv rv => rv = SessionManager_openSession.app (opensession_env s k flags lr)
+  | RHandle _ => SessionManager_openSession.app (opensession_env s k flags lr) = CKR_OK
   | _ => False
   end.
 Proof. exact opensession_model_is_code. Qed.
